@@ -54,6 +54,11 @@ STDLIB_TRUSTED = {
     "inspect.getmro": "reads __mro__",
     "inspect.stack": "frame list",
     "inspect.signature": "decoration-time only",
+    "inspect.getfullargspec": "decoration-time only (introspection of the function being decorated)",
+    "inspect.isfunction": "isinstance test",
+    "inspect.ismethod": "isinstance test",
+    "inspect.isclass": "isinstance test",
+    "inspect.unwrap": "decoration-time only",
     "sys.exc_info": "reads thread state",
     "traceback.format_stack": "formats frames",
     "traceback.format_exception": "formats a traceback",
@@ -66,6 +71,7 @@ STDLIB_TRUSTED = {
     "pyrsistent.optional": "constructor",
     "pyrsistent.PClass.__new__": "constructs an immutable record",
     "collections.OrderedDict": "constructor",
+    "collections.ChainMap": "constructor: layers the given mappings, copies nothing, calls nothing",
     "collections.namedtuple.instance": "constructor of a namedtuple record type defined in the module: stores its arguments",
     "importlib.util.find_spec": "import machinery (module load time only)",
     "types.ModuleType": "constructor",
